@@ -63,7 +63,7 @@ func (sdb *PreparedStmtDB) Reset() {
 	sdb.Mux.Lock()
 	defer sdb.Mux.Unlock()
 
-	for _, stmt := range sdb.Stmts {
+	for query, stmt := range sdb.Stmts {
 		go func(s *Stmt) {
 			// make sure the stmt must finish preparation first
 			<-s.prepared
@@ -71,8 +71,14 @@ func (sdb *PreparedStmtDB) Reset() {
 				_ = s.Close()
 			}
 		}(stmt)
+		// the map is shared with the PreparedStmtDB copies made by Session(&Session{PrepareStmt: true}),
+		// so clear it in place instead of replacing it
+		delete(sdb.Stmts, query)
 	}
-	sdb.Stmts = make(map[string]*Stmt)
+
+	if sdb.Stmts == nil {
+		sdb.Stmts = make(map[string]*Stmt)
+	}
 }
 
 func (db *PreparedStmtDB) prepare(ctx context.Context, conn ConnPool, isTransaction bool, query string) (Stmt, error) {
